@@ -84,7 +84,7 @@ func c05Conc(algo string, forced bool, scratch string, round int) string {
 	h.events = []nEvent{{kind: 'U', addr: 1}, {kind: 'U', addr: 2}, {kind: 'S', tag: 1}}
 	dir := filepath.Join(scratch, fmt.Sprintf("conc-%s-%v-%d", algo, forced, round))
 	defer os.RemoveAll(dir)
-	r := &nRun{h: h, dir: dir, clas: map[int]*nCLA{}, count: map[[2]int]int{}}
+	r := &nRun{h: h, dir: dir, clas: map[int]*nCLA{}, count: map[[3]int]int{}}
 	r.t0 = bpv7.DtnTimeNow()
 	net := &verifNet{}
 	for _, p := range h.peers {
